@@ -137,6 +137,61 @@ theorem rrh_as_bytes_eq (r : Dmr.Ars.Rrh) :
   rcases r with ⟨e, c⟩
   cases e <;> cases c <;> decide +kernel
 
+/-- `ResponseSecondHeader.as_bytes()`: with or without context, for every failure reason / refresh time (any natural) -/
+theorem rsh_as_bytes_eq (hdr : Dmr.Ars.FirstHeader) (r : Dmr.Ars.Rsh) :
+    ResponseSecondHeader.as_bytes modelExt (rshObj hdr r) = ofE id (Dmr.Ars.rshBytes r) := by
+  rcases r with ⟨f, rt, ctx⟩
+  rcases ctx with _ | (_ | _)
+  · cases f with
+    | none => rfl
+    | some f => cases f <;> rfl
+  · cases rt with
+    | none => rfl
+    | some n =>
+      by_cases h0 : n = 0
+      · subst h0; rfl
+      · by_cases h1 : n < 256
+        · have h2 : ¬ 256 ≤ n := by omega
+          simp [ResponseSecondHeader.as_bytes, rshObj, fhObj, Dmr.Ars.rshBytes, FirstHeader.len, h0, h1, h2]
+        · have h2 : 256 ≤ n := by omega
+          simp [ResponseSecondHeader.as_bytes, rshObj, fhObj, Dmr.Ars.rshBytes, FirstHeader.len, h0, h1, h2, liftE]
+  · cases f with
+    | none => rfl
+    | some f => cases f <;> rfl
+
+/-! ### length-value items -/
+
+theorem lv_none_eq : AutomaticRegistrationService.encode_len_val_none modelExt () = ofE id (Dmr.Ars.lv none) := rfl
+
+/-- `encode_len_val(s)` for a `str` with UTF-8 encoding `s.utf8` (any length: `OverflowError` from 256 octets on) -/
+theorem lv_str_eq (s : PyObj.Str) :
+    AutomaticRegistrationService.encode_len_val_str modelExt s = ofE id (Dmr.Ars.lv (some s.utf8)) := by
+  rcases s with ⟨u⟩
+  cases u with
+  | nil => rfl
+  | cons b t =>
+    unfold AutomaticRegistrationService.encode_len_val_str
+    simp only [Dmr.Ars.lv, PyObj.Str.isEmpty, ext_enc, len_eq, toBytesBig1]
+    have e : (!!(b :: t).isEmpty || !true) = false := rfl
+    simp only [e, Bool.false_eq_true, if_false, ok_bind]
+    by_cases h : (b :: t).length < 256
+    · rw [if_pos h, if_neg (by omega)]; rfl
+    · rw [if_neg h, if_pos (by omega)]; rfl
+
+/-- `read_len_val(data, idx)` for every byte string and natural read position -/
+theorem rlv_eq (data : Bytes) (idx : Nat) :
+    AutomaticRegistrationService.read_len_val modelExt data (idx : Int)
+      = ofE (fun p : Nat × Bytes => ((p.1 : Int), p.2)) (Dmr.Ars.readLv data idx) := by
+  unfold AutomaticRegistrationService.read_len_val Dmr.Ars.readLv
+  simp only [getB_ofNat]
+  cases h : data[idx]? with
+  | none => rfl
+  | some l =>
+    have e1 : (idx : Int) + 1 = ((idx + 1 : Nat) : Int) := by push_cast; rfl
+    have e2 : ((idx + 1 : Nat) : Int) + (l : Int) = ((idx + 1 + l : Nat) : Int) := by push_cast; rfl
+    simp only [ok_bind, e1, e2, slice_nat]
+    rfl
+
 theorem fh_len (h : FirstHeader) : FirstHeader.len modelExt h = .ok 1 := rfl
 
 end Dmr.Transl.Ars
